@@ -124,7 +124,8 @@ theorem asConst_defined (hP : P.Lawful) : ∀ (e : Expr) (v : V), e.WF → asCon
     split at h
     · obtain ⟨t, rfl⟩ := asConstChain_bool P ops _ v h; simp
     · simp at h
-  | .call _ _, v, _, h => by simp [asConst] at h
+  | .getAttr .., v, _, h | .getItem .., v, _, h | .slice .., v, _, h | .ifExpr .., v, _, h
+  | .filter .., v, _, h | .test .., v, _, h | .call .., v, _, h => by simp [asConst] at h
 
 /-! ### one comparison step: folder (`eval_compare`) versus the VM -/
 
@@ -227,7 +228,8 @@ mutual
         simp only [evalRt, asConst_sound' hP e left hw.1 hl]
         exact asConstChain_sound' hP ops left v hw.2.2 hw.2.1 (asConst_defined hP e left hw.1 hl) h
       · simp at h
-    | .call _ _, v, _, h => by simp [asConst] at h
+    | .getAttr .., v, _, h | .getItem .., v, _, h | .slice .., v, _, h | .ifExpr .., v, _, h
+  | .filter .., v, _, h | .test .., v, _, h | .call .., v, _, h => by simp [asConst] at h
   theorem asConstChain_sound' (hP : P.Lawful) : ∀ (ops : Chain) (left v : V), ops.WF → ops ≠ .nil →
       left ≠ .undef → asConstChain P left ops = some v → evalRtChain P m ρ left ops = .ok v
     | .nil, _, _, _, hne, _, _ => by simp at hne
@@ -311,7 +313,40 @@ mutual
       split
       · rfl
       · exact evalCChain_eq' hP ops _ hw.2.2
-    | .call pos kws, hw => by
+    | .getAttr e name, hw => by
+      simp only [Expr.WF] at hw
+      rw [evalC, evalRt, evalC_eq_evalRt' hP e hw]
+    | .getItem e i, hw => by
+      simp only [Expr.WF] at hw
+      rw [evalC, evalRt, evalC_eq_evalRt' hP e hw.1, evalC_eq_evalRt' hP i hw.2]
+    | .slice e a b c, hw => by
+      simp only [Expr.WF] at hw
+      rw [evalC, evalRt, evalC_eq_evalRt' hP e hw.1, evalCOpt_eq' hP a _ hw.2.1, evalCOpt_eq' hP b _ hw.2.2.1,
+        evalCOpt_eq' hP c _ hw.2.2.2]
+    | .ifExpr c t f, hw => by
+      simp only [Expr.WF] at hw
+      rw [evalC, evalRt, evalC_eq_evalRt' hP c hw.1, evalC_eq_evalRt' hP t hw.2.1, evalCOpt_eq' hP f _ hw.2.2]
+    | .filter name e pos kws, hw => by
+      simp only [Expr.WF] at hw
+      rw [evalC, evalRt, evalC_eq_evalRt' hP e hw.1, evalCList_eq' hP pos hw.2.1]
+      split
+      · rfl
+      · split
+        · rfl
+        · split
+          · next ks hk => rw [constKws_sound P m ρ kws ks hk]
+          · rw [evalCKws_eq' hP kws hw.2.2]
+    | .test name e pos kws, hw => by
+      simp only [Expr.WF] at hw
+      rw [evalC, evalRt, evalC_eq_evalRt' hP e hw.1, evalCList_eq' hP pos hw.2.1]
+      split
+      · rfl
+      · split
+        · rfl
+        · split
+          · next ks hk => rw [constKws_sound P m ρ kws ks hk]
+          · rw [evalCKws_eq' hP kws hw.2.2]
+    | .call name pos kws, hw => by
       simp only [Expr.WF] at hw
       rw [evalC, evalRt, evalCList_eq' hP pos hw.1]
       split
@@ -319,6 +354,11 @@ mutual
       · split
         · next ks hk => rw [constKws_sound P m ρ kws ks hk]
         · rw [evalCKws_eq' hP kws hw.2]
+  theorem evalCOpt_eq' (hP : P.Lawful) : ∀ (o : OptExpr) (d : V), o.WF → evalCOpt P m ρ d o = evalRtOpt P m ρ d o
+    | .none, _, _ => by simp [evalCOpt, evalRtOpt]
+    | .some e, _, hw => by
+      simp only [OptExpr.WF] at hw
+      rw [evalCOpt, evalRtOpt, evalC_eq_evalRt' hP e hw]
   theorem evalCList_eq' (hP : P.Lawful) : ∀ (es : Exprs), es.WF → evalCList P m ρ es = evalRtList P m ρ es
     | .nil, _ => by simp [evalCList, evalRtList]
     | .cons e es, hw => by
@@ -421,11 +461,52 @@ mutual
         | error _ => rfl
         | ok left => exact hoistChain_rt' hP ops ops' left hw.2.2 ho
       · exact hoistHere_rt m ρ hP hw h
-    | .call pos kws, e', hw, h => by
+    | .getAttr a n, e', hw, h => by
+      rw [Hoist] at h
+      obtain ⟨a', rfl, ha⟩ := h
+      simp only [Expr.WF] at hw
+      rw [evalRt, evalRt, hoist_rt' hP a a' hw ha]
+    | .getItem a i, e', hw, h => by
+      rw [Hoist] at h
+      obtain ⟨a', i', rfl, ha, hi⟩ := h
+      simp only [Expr.WF] at hw
+      rw [evalRt, evalRt, hoist_rt' hP a a' hw.1 ha, hoist_rt' hP i i' hw.2 hi]
+    | .slice a x y z, e', hw, h => by
+      rw [Hoist] at h
+      obtain ⟨a', x', y', z', rfl, ha, hx, hy, hz⟩ := h
+      simp only [Expr.WF] at hw
+      rw [evalRt, evalRt, hoist_rt' hP a a' hw.1 ha, hoistOpt_rt' hP x x' _ hw.2.1 hx,
+        hoistOpt_rt' hP y y' _ hw.2.2.1 hy, hoistOpt_rt' hP z z' _ hw.2.2.2 hz]
+    | .ifExpr c t f, e', hw, h => by
+      rw [Hoist] at h
+      obtain ⟨c', t', f', rfl, hc, ht, hf⟩ := h
+      simp only [Expr.WF] at hw
+      rw [evalRt, evalRt, hoist_rt' hP c c' hw.1 hc, hoist_rt' hP t t' hw.2.1 ht, hoistOpt_rt' hP f f' _ hw.2.2 hf]
+    | .filter n a pos kws, e', hw, h => by
+      rw [Hoist] at h
+      obtain ⟨a', pos', kws', rfl, ha, hp, hk⟩ := h
+      simp only [Expr.WF] at hw
+      rw [evalRt, evalRt, hoist_rt' hP a a' hw.1 ha, hoistList_rt' hP pos pos' hw.2.1 hp,
+        hoistKws_rt' hP kws kws' hw.2.2 hk]
+    | .test n a pos kws, e', hw, h => by
+      rw [Hoist] at h
+      obtain ⟨a', pos', kws', rfl, ha, hp, hk⟩ := h
+      simp only [Expr.WF] at hw
+      rw [evalRt, evalRt, hoist_rt' hP a a' hw.1 ha, hoistList_rt' hP pos pos' hw.2.1 hp,
+        hoistKws_rt' hP kws kws' hw.2.2 hk]
+    | .call n pos kws, e', hw, h => by
       rw [Hoist] at h
       obtain ⟨pos', kws', rfl, hp, hk⟩ := h
       simp only [Expr.WF] at hw
       rw [evalRt, evalRt, hoistList_rt' hP pos pos' hw.1 hp, hoistKws_rt' hP kws kws' hw.2 hk]
+  theorem hoistOpt_rt' (hP : P.Lawful) : ∀ (o o' : OptExpr) (d : V), o.WF → HoistOpt P ρ o o' →
+      evalRtOpt P m ρ d o' = evalRtOpt P m ρ d o
+    | .none, o', _, _, h => by rw [HoistOpt] at h; subst h; rfl
+    | .some e, o', _, hw, h => by
+      rw [HoistOpt] at h
+      obtain ⟨e', rfl, he⟩ := h
+      simp only [OptExpr.WF] at hw
+      rw [evalRtOpt, evalRtOpt, hoist_rt' hP e e' hw he]
   theorem hoistList_rt' (hP : P.Lawful) : ∀ (es es' : Exprs), es.WF → HoistList P ρ es es' →
       evalRtList P m ρ es' = evalRtList P m ρ es
     | .nil, es', _, h => by rw [HoistList] at h; subst h; rfl
@@ -525,11 +606,49 @@ mutual
           obtain ⟨_, _, rfl, _, _⟩ := ho
           simp
       · exact hoistHere_WF ρ h
-    | .call pos kws, e', hw, h => by
+    | .getAttr a n, e', hw, h => by
+      rw [Hoist] at h
+      obtain ⟨a', rfl, ha⟩ := h
+      simp only [Expr.WF] at hw ⊢
+      exact hoist_WF' a a' hw ha
+    | .getItem a i, e', hw, h => by
+      rw [Hoist] at h
+      obtain ⟨a', i', rfl, ha, hi⟩ := h
+      simp only [Expr.WF] at hw ⊢
+      exact ⟨hoist_WF' a a' hw.1 ha, hoist_WF' i i' hw.2 hi⟩
+    | .slice a x y z, e', hw, h => by
+      rw [Hoist] at h
+      obtain ⟨a', x', y', z', rfl, ha, hx, hy, hz⟩ := h
+      simp only [Expr.WF] at hw ⊢
+      exact ⟨hoist_WF' a a' hw.1 ha, hoistOpt_WF' x x' hw.2.1 hx, hoistOpt_WF' y y' hw.2.2.1 hy,
+        hoistOpt_WF' z z' hw.2.2.2 hz⟩
+    | .ifExpr c t f, e', hw, h => by
+      rw [Hoist] at h
+      obtain ⟨c', t', f', rfl, hc, ht, hf⟩ := h
+      simp only [Expr.WF] at hw ⊢
+      exact ⟨hoist_WF' c c' hw.1 hc, hoist_WF' t t' hw.2.1 ht, hoistOpt_WF' f f' hw.2.2 hf⟩
+    | .filter n a pos kws, e', hw, h => by
+      rw [Hoist] at h
+      obtain ⟨a', pos', kws', rfl, ha, hp, hk⟩ := h
+      simp only [Expr.WF] at hw ⊢
+      exact ⟨hoist_WF' a a' hw.1 ha, hoistList_WF' pos pos' hw.2.1 hp, hoistKws_WF' kws kws' hw.2.2 hk⟩
+    | .test n a pos kws, e', hw, h => by
+      rw [Hoist] at h
+      obtain ⟨a', pos', kws', rfl, ha, hp, hk⟩ := h
+      simp only [Expr.WF] at hw ⊢
+      exact ⟨hoist_WF' a a' hw.1 ha, hoistList_WF' pos pos' hw.2.1 hp, hoistKws_WF' kws kws' hw.2.2 hk⟩
+    | .call n pos kws, e', hw, h => by
       rw [Hoist] at h
       obtain ⟨pos', kws', rfl, hp, hk⟩ := h
       simp only [Expr.WF] at hw ⊢
       exact ⟨hoistList_WF' pos pos' hw.1 hp, hoistKws_WF' kws kws' hw.2 hk⟩
+  theorem hoistOpt_WF' : ∀ (o o' : OptExpr), o.WF → HoistOpt P ρ o o' → o'.WF
+    | .none, o', _, h => by rw [HoistOpt] at h; subst h; simp [OptExpr.WF]
+    | .some e, o', hw, h => by
+      rw [HoistOpt] at h
+      obtain ⟨e', rfl, he⟩ := h
+      simp only [OptExpr.WF] at hw ⊢
+      exact hoist_WF' e e' hw he
   theorem hoistList_WF' : ∀ (es es' : Exprs), es.WF → HoistList P ρ es es' → es'.WF
     | .nil, es', _, h => by rw [HoistList] at h; subst h; simp [Exprs.WF]
     | .cons e es, es', hw, h => by
